@@ -45,7 +45,8 @@ RULE = (
     "tensor/full/dimension/ones/zeros, plain or behind an ExpTransform TransformedParameter, listed by id, as Parametric object or as param "
     "groups with their own lr) x optionally K further parameters written once inside a Plate (range with any start, ${var} or * ids, Plate of Distributions with the parameter inline or Plate of "
     "Parameters at the top level) x optionally both comment forms ('_' keys, objects with ignore=true) around and inside them x zeros_like / ones_like / full_like definitions "
-    "x --dtype on the command line x target (Normal/Gamma joint with a hierarchical link, or a mean-field ELBO "
+    "x sizes drawn across the one-digit / two-digit boundary (1-16 plate parameters, vectors up to length 12, up to 13 operators, acceptance windows of 12, "
+    "up to 12 or two-digit MultiStepLR milestones, N up to 12, one param group per tensor) x --dtype on the command line x target (Normal/Gamma joint with a hierarchical link, or a mean-field ELBO "
     "with drawn sample count) x checkpoint name / frequency / checkpoint_all; or MCMC x a drawn operator set (Scaler, SlidingWindow, "
     "Dirichlet, HMC with diagonal or dense mass matrix) x adaptors (AdaptiveStepSize +-acceptance rate, DualAveragingStepSize, "
     "MassMatrixAdaptor +-regularize / swap_every / variance_window / restart) x weights, acceptance windows, disable_adaptation, dtype, logger; "
@@ -670,6 +671,8 @@ def opt_config(c, iterations):
         opt["parameters"] = par_ids
     elif style == "groups" and len(opt_ids) >= 2:
         opt["parameters"] = [{"params": opt_ids[:1]}, {"params": opt_ids[1:], "lr": c["group_lr"]}]
+    elif style == "each":  # one param group per tensor (the list of param groups grows with the plate)
+        opt["parameters"] = [dict({"params": [u]}, **({"lr": c["group_lr"]} if k % 2 else {})) for k, u in enumerate(opt_ids)]
     else:
         opt["parameters"] = opt_ids
     ck = c.get("ckname")
@@ -939,8 +942,11 @@ def labels_of(c):
         return ("opt", "optim=" + c["optim"]["name"], "sched=" + (c.get("sched") or {}).get("name", "none"), "target=" + c["target"],
                 "argv_dtype=%s" % (c.get("argv_dtype") or "default"), "nn" if any(p.get("nn") for p in c["params"]) else "tensor",
                 "pstyle=" + c.get("pstyle", "ids"), "ckall" if c.get("ckall") else "single", *("dtype=" + d for d in dts),
-                *("form=" + f for f in sorted({p.get("form", "tensor") for p in c["params"]} & set(LIKE_FORMS))), *_plate_labels(c))
-    labs = ["mcmc", "dtype=%s/%s" % (c.get("dtype") or "default", c.get("argv_dtype") or "default"), *_plate_labels(c)]
+                *("form=" + f for f in sorted({p.get("form", "tensor") for p in c["params"]} & set(LIKE_FORMS))), *_plate_labels(c),
+                "tensors>=11" if len(c["params"]) + ((c.get("plate") or {}).get("k", 0) if c["target"] != "elbo" else 0) >= 11 else "tensors<11",
+                "N>=10" if c["N"] >= 10 else "N<10")
+    labs = ["mcmc", "dtype=%s/%s" % (c.get("dtype") or "default", c.get("argv_dtype") or "default"), *_plate_labels(c),
+            "operators>=10" if len(c["ops"]) + (1 if c.get("plate") else 0) >= 10 else "operators<10"]
     for o in c["ops"]:
         labs.append("op=" + o["type"])
         if o["type"] == "hmc":
@@ -1456,7 +1462,8 @@ def _sched(draw, name):
     if name == "ExponentialLR":
         return {"name": name, "args": {"gamma": draw(st.sampled_from([0.5, 0.9, 0.99]))}}
     if name == "MultiStepLR":
-        ms = sorted(draw(st.sets(st.integers(1, 9), min_size=1, max_size=3)))
+        ms = sorted(draw(st.one_of(st.sets(st.integers(1, 9), min_size=1, max_size=3), st.sets(st.integers(1, 16), min_size=1, max_size=4),
+                                   st.sets(st.integers(1, 24), min_size=10, max_size=12))))
         return {"name": name, "args": {"milestones": ms, "gamma": draw(st.sampled_from([0.5, 0.1]))}}
     if name == "CosineAnnealingLR":
         return {"name": name, "args": {"T_max": draw(st.integers(2, 8)), "eta_min": draw(st.sampled_from([0.0, 0.001]))}}
@@ -1471,19 +1478,25 @@ def _sched(draw, name):
     raise ValueError(name)
 
 
+def _count(draw, small, big):
+    """a count that is usually small (cheap cases) and regularly crosses the one-digit / two-digit boundary
+    (keys "10", "11", ... of saved dictionaries, list lengths, file names, counters)"""
+    return draw(st.one_of(st.integers(1, small), st.integers(1, small), st.integers(small + 1, big)))
+
+
 def _epochs(draw, c, continue_, nmax=6, extra=5):
-    N = draw(st.integers(1, nmax))
+    N = _count(draw, nmax, 12) if nmax < 12 else draw(st.integers(1, nmax))
     c["N"] = N
     c["f"] = draw(st.sampled_from([k for k in range(1, N + 1) if N % k == 0]))
     c["T"] = N + (draw(st.integers(1, extra)) if continue_ else draw(st.integers(0, 2)))
 
 
 def _plate(draw, dtype):
-    n = draw(st.integers(1, 3))
+    n = _count(draw, 3, 11)
     v = round(draw(fl(-1.5, 1.5)), 3)
     form = draw(st.sampled_from(["tensor", "tensor", "full", "zeros"]))
     vals = [0.0] * n if form == "zeros" else [v] * n if form == "full" else [round(v + 0.25 * k, 3) for k in range(n)]
-    return {"k": draw(st.integers(1, 4)), "start": draw(st.sampled_from([0, 0, 1, 3])), "syntax": draw(st.sampled_from(["var", "star"])),
+    return {"k": _count(draw, 4, 16), "start": draw(st.sampled_from([0, 0, 1, 3, 8])), "syntax": draw(st.sampled_from(["var", "star"])),
             "var": draw(st.sampled_from(["i", "k", "idx"])), "where": draw(st.sampled_from(["dist", "dist", "top"])),
             "type": draw(st.sampled_from(["Plate", "torchtree.Plate"])), "values": vals, "form": form, "dtype": dtype, "nn": draw(st.booleans()),
             "a": round(draw(fl(0.5, 3.0)), 2), "b": round(draw(fl(0.5, 3.0)), 2)}
@@ -1504,7 +1517,7 @@ def opt_cases(draw, continue_=False, optim=None, sched="draw"):
     ps = []
     for _ in range(draw(st.integers(1, 3))):
         kind = draw(st.sampled_from(["real", "real", "pos"]))
-        n = draw(st.integers(1, 4))
+        n = _count(draw, 4, 12)
         form = draw(st.sampled_from(["tensor", "tensor", "tensor", "full", "dimension", "zeros" if kind == "real" or c["target"] == "elbo" else "ones", "ones"]
                                     + ([] if c["target"] == "elbo" else ["zeros_like", "ones_like", "full_like"])))
         vals = [round(draw(fl(-1.5, 1.5)), 3) for _ in range(n)]
@@ -1531,8 +1544,8 @@ def opt_cases(draw, continue_=False, optim=None, sched="draw"):
     c["comments"] = draw(st.integers(0, 3)) == 0
     # (a parameter of a prior that is itself sampled by q is DESIGN section 8 #25, C10's subject: no link under the ELBO)
     c["couple"] = draw(st.booleans()) and c["target"] == "joint"
-    c["pstyle"] = draw(st.sampled_from(["ids", "ids", "parametric", "groups"])) if name != "LBFGS" else draw(st.sampled_from(["ids", "parametric"]))
-    if c["pstyle"] == "groups":
+    c["pstyle"] = draw(st.sampled_from(["ids", "ids", "parametric", "groups", "each"])) if name != "LBFGS" else draw(st.sampled_from(["ids", "parametric"]))
+    if c["pstyle"] in ("groups", "each"):
         c["group_lr"] = draw(st.sampled_from([0.01, 0.05]))
     c["maximize_in"] = draw(st.sampled_from(["data", "data", "options", "default"]))
     c["ckname"] = draw(st.sampled_from([None, None, True, "state.json"]))
@@ -1576,6 +1589,8 @@ def mcmc_cases(draw, continue_=False, adaptors="draw", need_hmc=False, mass=None
          "dtype": draw(st.sampled_from([None, None, "float64", "float32"]))}
     ops = []
     types = draw(st.lists(st.sampled_from(["scaler", "slide", "dirichlet", "hmc", "hmc", "gmrf"]), min_size=1, max_size=4))
+    if draw(st.integers(0, 3)) == 0:  # a long list of (cheap) operators
+        types += [draw(st.sampled_from(["scaler", "slide", "dirichlet"])) for _ in range(draw(st.integers(5, 9)))]
     if need_hmc and "hmc" not in types:
         types[0] = "hmc"
     # one tree / coalescent / GMRF per configuration, in the session's default dtype
@@ -1586,12 +1601,12 @@ def mcmc_cases(draw, continue_=False, adaptors="draw", need_hmc=False, mass=None
         if draw(st.integers(0, 2)) == 0:
             o["tap"] = draw(st.sampled_from([0.24, 0.5, 0.7]))
         if t != "hmc":
-            o["awl"] = draw(st.sampled_from([None, 2, 3, 10]))
+            o["awl"] = draw(st.sampled_from([None, 2, 3, 10, 12]))
         if t == "scaler":
-            o["values"] = [round(draw(logu(0.2, 3.0)), 3) for _ in range(draw(st.integers(1, 3)))]
+            o["values"] = [round(draw(logu(0.2, 3.0)), 3) for _ in range(_count(draw, 3, 11))]
             o["tuning"] = draw(st.sampled_from([0.1, 0.5, 0.75]))
         elif t == "slide":
-            o["values"] = [round(draw(fl(-2.0, 2.0)), 3) for _ in range(draw(st.integers(1, 3)))]
+            o["values"] = [round(draw(fl(-2.0, 2.0)), 3) for _ in range(_count(draw, 3, 11))]
             o["tuning"] = draw(st.sampled_from([0.1, 0.5, 2.0]))
         elif t == "gmrf":
             o["values"] = [round(draw(fl(-1.0, 2.0)), 3) for _ in range(draw(st.integers(2, 5)))]
@@ -1699,6 +1714,15 @@ def grid(tier):
             out.append({"alg": "mcmc", "torch_seed": 11, "argv_dtype": None, "dtype": None, "ckname": None, "logger": False, "every": 0,
                         "ops": [{"type": "hmc", "weight": 1.0, "disable": False, "values": [[0.3, -0.4], [0.2]], "steps": 2, "step_size": 0.2,
                                  "mass": mass, "adaptors": [dict(a), {"type": "adaptive", "use_rate": False}]}], "N": N, "f": f, "T": T})
+    # the one-digit / two-digit boundary of the integer keys of saved dictionaries: 9 .. 16 parameter tensors, two-digit milestones
+    for k, (optim, options) in itertools_product_counts():
+        out.append({"alg": "opt", "torch_seed": 3, "argv_dtype": None, "optim": {"name": optim, "options": options},
+                    "sched": {"name": "MultiStepLR", "args": {"milestones": [2, 10, 12], "gamma": 0.5}}, "target": "joint",
+                    "params": [{"a": 0.5, "b": 1.0, "dtype": None, "form": "tensor", "kind": "real", "nn": False, "values": [0.3, -0.2]}],
+                    "plate": {"k": k - 1, "start": 0, "syntax": "var" if k % 2 else "star", "var": "i", "where": "dist", "type": "Plate", "values": [0.1, 0.4],
+                              "form": "tensor", "dtype": None, "nn": False, "a": 1.0, "b": 1.5},
+                    "comments": False, "couple": False, "pstyle": "ids" if k % 3 else "each", "group_lr": 0.05, "maximize_in": "data", "ckname": None,
+                    "ckall": False, "N": 3, "f": 1, "T": 6})
     # several algorithms in one configuration, each with its own checkpoint file; every order of the -c options
     def P(**k):
         return dict({"a": 0.5, "b": 1.0, "dtype": None, "form": "tensor", "kind": "real", "nn": False, "values": [0.3]}, **k)
@@ -1727,6 +1751,10 @@ def grid(tier):
     return out
 
 
+def itertools_product_counts():
+    return [(k, oo) for k in (9, 10, 11, 12, 16) for oo in (("Adam", {"lr": 0.05}), ("RMSprop", {"lr": 0.01, "momentum": 0.9}))]
+
+
 def body_any(c):
     return body_stages(c) if c["alg"] == "stages" else body_trajectory(c)
 
@@ -1750,8 +1778,8 @@ def selftest():
 
 def subchecks(tier):
     return [
-        Sub("roundtrip", body_roundtrip, strategy=cases_roundtrip, quick=1200, thorough=16000),
-        Sub("trajectory", body_trajectory, strategy=cases_trajectory, quick=800, thorough=12000),
-        Sub("stages", body_stages, strategy=staged_cases, quick=320, thorough=5000),
+        Sub("roundtrip", body_roundtrip, strategy=cases_roundtrip, quick=1000, thorough=16000),
+        Sub("trajectory", body_trajectory, strategy=cases_trajectory, quick=640, thorough=12000),
+        Sub("stages", body_stages, strategy=staged_cases, quick=260, thorough=5000),
         Sub("grid", body_any, enumerate=grid, exhaustive=True),
     ]
